@@ -128,8 +128,10 @@ CLAIMED['C16'] = dict(
     technique='symbolic execution of the real run_sim loop under a symbolic fault schedule (failing solve index a symbolic Int; backup solver, its success and convergence_error forked; symbolic time-control instant; trial-limit storm); every feasible path explored; SMT (z3 LIA) decides time-ordering, report-grid and prefix-equality claims',
     text='On every feasible path: run_sim returns or raises RuntimeError only; a failed solve (primary and backup) raises with convergence_error=True, otherwise sets error_code, warns and stops; no failure => '
          'error_code None and the run reaches the duration; recorded times strictly increase and lie on the report grid; every element has one entry per recorded time and the real get_results builds tables with one '
-         'column per element sharing the index; the records before the failure equal, term for term, those of the fault-free run. Includes exceeding the trial limit through flipping post-solve controls.',
-    note='Trusted: z3; the numeric kernel is a stub, so NewtonSolver termination (maxiter/bt_maxiter/time_limit) and finiteness of values are outside; one template; <= 4 hydraulic steps.',
+         'column per element sharing the index; the records before the failure equal, term for term, those of the fault-free run. Includes exceeding the trial limit through flipping post-solve controls and report steps finer than / not a multiple of the hydraulic step. '
+         'Solver level: the real NewtonSolver.solve on symbolic residual norms and a symbolic clock (MAXITER = BT_MAXITER = 2, Jacobian singular at iteration 0, 1 or never through the real scipy routine) always ends in a status triple, converged only below the tolerance; '
+         'the real _solver_helper maps every status fsolve can report and a raising newton_krylov to error without loading values.',
+    note='Trusted: z3; in the run_sim harness the numeric kernel is a stub; what the linear algebra does to the numbers and finiteness of values are outside; one template; <= 4 hydraulic steps.',
     ref='DESIGN.md section 4, C16')
 
 CLAIMED['C11'] = dict(
@@ -137,7 +139,7 @@ CLAIMED['C11'] = dict(
     technique='symbolic execution of the real run_sim loop (Newton solve stubbed), reset_initial_values, deepcopy and to_dict on a model holding z3 proxies, with symbolic control instants / values / thresholds; every feasible path explored; SMT (z3) decides equality of every symbolic leaf of the model dictionary before/after and of the recorded runs',
     text='For controls on pipe, valve and pump status, valve setting, leak_status (junction and tank), a tank-level control and a rule, with symbolic instants and values: the dictionary of the model is identical '
          'before and after a run; after reset_initial_values a rerun - also after a run that was cut short - records exactly the same times, statuses, settings, tank heads, leak flags and demands; a deepcopy '
-         'records the same. write_inpfile (the Python half of EpanetSimulator) leaves the dictionary unchanged.',
+         'records the same, and so does a second run_sim on the same WNTRSimulator object. Configurations include a dead end closed at the end of the run and numeric report steps finer than / not a multiple of the hydraulic step. write_inpfile (the Python half of EpanetSimulator) leaves the dictionary unchanged.',
     note='Trusted: z3; Newton solve stubbed (numeric reruns up to floating-point noise are outside); one scenario network; <= 2 hydraulic steps. Known findings: controls on pump power and on pump base_speed write the definition.',
     ref='DESIGN.md section 4, C11')
 
